@@ -153,6 +153,22 @@ func VerifC13Restore() {
 	m2 := c13Manager(fresh, bk)
 	bk.Faults = true
 	bk.NoFault["list"] = !zz.Bool("list_may_fail")
+	if zz.ParamInt("bulk", 0) > 0 {
+		// many fault-free filler files: a single unreadable backup file is then a small
+		// fraction of the backup (it must fail the restore all the same)
+		bk.FaultPaths = map[string]bool{}
+		for i, p := range c13Pool {
+			if i < zz.ParamInt("files", 3) {
+				bk.FaultPaths[id+"/data/"+p] = true
+			}
+		}
+		fresh.FaultPaths = map[string]bool{}
+		for i, p := range c13Pool {
+			if i < zz.ParamInt("files", 3) {
+				fresh.FaultPaths[p] = true
+			}
+		}
+	}
 	fresh.Faults = zz.Bool("data_storage_faults")
 	_, rerr := m2.RestoreBackup(context.Background(), RestoreOptions{BackupID: id, RestoreData: true})
 	bk.Faults, fresh.Faults = false, false
